@@ -1,7 +1,7 @@
 #!/bin/sh
 # confirm_mutant.sh <ID>: confirm a seeded change in its scratch worktree /tmp/mut/<ID>:
 # builds, existing tests pass (demo skipped), demo fails with the change and passes without it.
-id=$1; wt=/tmp/mut/$id; out=/tmp/mut/out/$id
+id=$1; M=${MUTDIR:-/tmp/mut}; wt=$M/$id; out=$M/out/$id
 export GOPROXY=off GOSUMDB=off GOTOOLCHAIN=local
 cd $wt || exit 2
 demo=$(git status --short | grep '_test.go' | awk '{print $2}' | head -5 | tr '\n' ' ')
@@ -14,6 +14,6 @@ pk=$(git diff --name-only | grep -v _test.go | xargs -n1 dirname | sort -u | sed
 tname=$(echo "$run" | grep -o "\-run [^ ]*" | awk '{print $2}' | tr -d "'\"")
 echo "--- existing tests of touched packages ($pk), demo skipped ($tname)"; timeout 2400 go test -vet=off -count=1 -skip "$tname" $pk 2>&1 | tail -5
 echo "--- demo WITH change"; timeout 2400 sh -c "$run" 2>&1 | tail -4
-git diff -- . ':(exclude)*_test.go' > /tmp/mut/$id.srcpatch; git checkout -- $(git diff --name-only | grep -v _test.go)
+git diff -- . ':(exclude)*_test.go' > $M/$id.srcpatch; git checkout -- $(git diff --name-only | grep -v _test.go)
 echo "--- demo WITHOUT change"; timeout 2400 sh -c "$run" 2>&1 | tail -4
-git apply /tmp/mut/$id.srcpatch && echo "patch re-applied"
+git apply $M/$id.srcpatch && echo "patch re-applied"
